@@ -23,6 +23,7 @@ func siblingBase(name string) string {
 
 // siblingExempt: (family, field) pairs where a variant legitimately does not read the flag, with the reason.
 var siblingExempt = map[string]string{
+	"enumeration loops|isStartAnchored": "only findAllIndicesLoop sizes a result buffer (at most one match for a start-anchored pattern); Count has none",
 	"strategy NFA|prefilterPartialCoverage": "since fix 1a675b8 a partial-coverage literal set never builds e.prefilter (R-GATE), so the test the span views still carry is redundant",
 	"strategy NFA|canMatchEmpty":            "the span views avoid the bounded backtracker for patterns that can match empty because its greedy semantics pick a different empty-match POSITION; whether a match exists is not affected, so isMatchNFA may use it",
 	"findIndicesDFA|prefilterPartialCoverage": "since fix 1a675b8 a partial-coverage literal set never builds e.prefilter (enforced by R-GATE at construction), so the flag test that only findIndicesDFA still carries is redundant, not a missing guard in its siblings",
@@ -36,7 +37,7 @@ var crossAPIExempt = map[string]string{
 func init() {
 	core.Register(&core.Rule{
 		Name: "R-SIBLING",
-		Doc: "Sibling agreement on guard flags: the variants of one per-strategy helper of the meta engine (X, XAt, XAtWithState: the same algorithm at offset 0, at an offset, and with caller-provided state) must consult the same boolean fields of the Engine (match-mode, partial-coverage, run-skip-safety, can-match-empty ... flags). A flag that guards an operation in one variant and is not even read in another is a one-sided check: the unguarded variant performs the operation for patterns/modes where it is unsound, so FindAll/Count (which use the At/WithState variants) disagree with Find/Match. The same holds across the API views of one strategy: a safety flag that every span view findIndices<X>[At][WithState] consults must be consulted by the boolean view isMatch<X> too (mode flags that concern spans only are exempt by name). Necessary for C11 (all views agree) and C12 (configuration-independence).",
+		Doc: "Sibling agreement on guard flags: the variants of one per-strategy helper of the meta engine (X, XAt, XAtWithState: the same algorithm at offset 0, at an offset, and with caller-provided state) must consult the same boolean fields of the Engine (match-mode, partial-coverage, run-skip-safety, can-match-empty ... flags). A flag that guards an operation in one variant and is not even read in another is a one-sided check: the unguarded variant performs the operation for patterns/modes where it is unsound, so FindAll/Count (which use the At/WithState variants) disagree with Find/Match. The same holds across the API views of one strategy: a safety flag that every span view findIndices<X>[At][WithState] consults must be consulted by the boolean view isMatch<X> too (mode flags that concern spans only are exempt by name). The enumeration loops behind FindAll* and Count (findAllIndicesLoop, Count) are compared the same way: a flag that decides in one of them whether an empty match next to the previous match is dropped, and is not read by the other, makes Count disagree with len(FindAll). Necessary for C11 (all views agree), C04 and C12 (configuration-independence).",
 		Min: 20, NeedSSA: true,
 		Run: func(p *core.Prog) *core.RuleResult {
 			res := &core.RuleResult{}
@@ -62,6 +63,15 @@ func init() {
 				}
 				b := siblingBase(fn.Name())
 				fams[b] = append(fams[b], fn)
+			}
+			// the enumeration loops behind FindAll* and Count are one algorithm written twice
+			for _, fn := range p.SrcFuncs() {
+				if fn.Signature.Recv() == nil || namedOfType(fn.Signature.Recv().Type()) != eng || fn.Parent() != nil || strings.HasSuffix(p.File(fn.Pos()), "_test.go") {
+					continue
+				}
+				if fn.Name() == "Count" || fn.Name() == "findAllIndicesLoop" {
+					fams["enumeration loops"] = append(fams["enumeration loops"], fn)
+				}
 			}
 			var bases []string
 			for b, ms := range fams {
